@@ -6,6 +6,7 @@ import (
 	"bytes"
 	"fmt"
 	"io"
+	"net/http"
 	"regexp"
 	"strconv"
 	"strings"
@@ -32,6 +33,8 @@ type Opts struct {
 	// RealSym leaves the Symbolizer plug-in unset so that the driver installs its own
 	// (internal/symbolizer with the given ObjTool).
 	RealSym bool
+	// Transport, when set, is the HTTPTransport plug-in (used by the driver's own URL fetch and by symbolz).
+	Transport http.RoundTripper
 }
 
 // Result is everything observable at the plug-in boundaries.
@@ -296,6 +299,9 @@ func Run(o Opts) *Result {
 	}
 	if o.HTTP != nil {
 		po.HTTPServer = o.HTTP
+	}
+	if o.Transport != nil {
+		po.HTTPTransport = o.Transport
 	}
 	func() {
 		defer func() {
